@@ -71,12 +71,12 @@ pub struct Change {
 
 #[derive(Debug, Clone, Serialize, Deserialize, Hash)]
 pub struct Case {
-    /// number of initial delegates (1..=3), keys 0..n
+    /// number of initial delegates (1..=4), keys 0..n
     delegates: u8,
     changes: Vec<Change>,
 }
 
-const NKEYS: u8 = 5;
+const NKEYS: u8 = 6;
 
 fn sg() -> impl Strategy<Value = Sg> {
     prop_oneof![8 => Just(Sg::Valid), 1 => Just(Sg::OtherBlob), 1 => Just(Sg::OtherKey)]
@@ -104,7 +104,7 @@ fn act_strategy() -> impl Strategy<Value = Act> {
 }
 
 fn case_strategy(max: usize) -> impl Strategy<Value = Case> {
-    (1u8..=3).prop_flat_map(move |delegates| case_strategy_for(delegates, max))
+    prop_oneof![1 => 1u8..=3, 1 => Just(4u8)].prop_flat_map(move |delegates| case_strategy_for(delegates, max))
 }
 
 fn case_strategy_for(delegates: u8, max: usize) -> impl Strategy<Value = Case> {
@@ -130,14 +130,14 @@ fn rounds_strategy() -> impl Strategy<Value = Case> {
         2 => Just(DocEdit::ToggleVisibility),
     ];
     let round = (
-        0u8..4,
+        0u8..5,
         edit,
         sg(),
-        proptest::collection::vec((0u8..4, sg(), proptest::bool::weighted(0.15)), 0..4),
+        proptest::collection::vec((0u8..5, sg(), proptest::bool::weighted(0.15)), 0..5),
         proptest::option::weighted(0.3, (0u8..NKEYS, act_strategy(), any::<u16>())),
         0u8..3,
     );
-    (1u8..=3, proptest::collection::vec(round, 1..5)).prop_map(|(delegates, rounds)| {
+    (prop_oneof![1 => 1u8..=3, 1 => Just(4u8)], proptest::collection::vec(round, 1..5)).prop_map(|(delegates, rounds)| {
         let mut changes = vec![];
         for (proposer, edit, sig, accepts, noise, ts) in rounds {
             changes.push(Change { author: 100 + proposer, parents: vec![u16::MAX], ts, actions: vec![Act::Revision { edit, parent: 65534, sig }] });
@@ -169,18 +169,35 @@ struct RevInfo {
 }
 
 fn check(ctx: &Ctx, c: &Case) -> CaseResult {
+    check_mode(ctx, c, false)
+}
+
+/// C06's clause for identity histories: the state equals that of the history without the dropped changes.
+pub fn check_clean_history(ctx: &Ctx, c: &Case) -> CaseResult {
+    check_mode(ctx, c, true)
+}
+
+pub fn rounds_cases() -> impl Strategy<Value = Case> {
+    rounds_strategy()
+}
+
+pub fn history_cases(max: usize) -> impl Strategy<Value = Case> {
+    case_strategy(max)
+}
+
+fn check_mode(ctx: &Ctx, c: &Case, clean_only: bool) -> CaseResult {
     let lab = LABS
         .with(|l| l.borrow_mut().remove(&c.delegates))
         .unwrap_or_else(|| {
             let ds: Vec<u8> = (0..c.delegates).collect();
             CobLab::new(NKEYS, &ds, 1)
         });
-    let r = check_in(ctx, &lab, c);
+    let r = check_in(ctx, &lab, c, clean_only);
     LABS.with(|l| l.borrow_mut().insert(c.delegates, lab));
     r
 }
 
-fn check_in(ctx: &Ctx, lab: &CobLab, c: &Case) -> CaseResult {
+fn check_in(ctx: &Ctx, lab: &CobLab, c: &Case, clean_only: bool) -> CaseResult {
     use radicle::crypto::signature::Signer as _;
     let tn: &TypeName = &identity::TYPENAME;
     let root = lab.identity_root;
@@ -360,6 +377,88 @@ fn check_in(ctx: &Ctx, lab: &CobLab, c: &Case) -> CaseResult {
             Err(e) => Err(e.to_string()),
         }
     };
+
+    if clean_only {
+        let (full, e1) = match eval_subset(&|_| true, n, 0) {
+            Ok(Some(i)) => i,
+            Ok(None) => return fail("identity:not-found", "identity object not found"),
+            Err(e) => return fail("identity:evaluation-failed", format!("full history: {e}")),
+        };
+        let kept: BTreeSet<usize> = (0..n).filter(|i| e1.contains(&ids[*i])).collect();
+        let mut direct = 0;
+        for i in 1..n {
+            if !kept.contains(&i) {
+                if parents[i].iter().all(|p| kept.contains(p)) {
+                    direct += 1;
+                    ctx.count("identity:directly-rejected-change");
+                } else {
+                    ctx.count("identity:dropped-as-dependant");
+                }
+            }
+        }
+        for i in &kept {
+            for p in &parents[*i] {
+                ensure!(kept.contains(p), "identity:dependant-of-dropped-change-kept", "change #{i} is in the history but its parent #{p} was dropped");
+            }
+        }
+        let (clean, e2) = match eval_subset(&|i| kept.contains(&i), n, 100) {
+            Ok(Some(i)) => i,
+            other => return fail("identity:clean-history-does-not-evaluate", format!("evaluating the history without the rejected changes failed: {:?}", other.err())),
+        };
+        if e1 != e2 {
+            // Which change is kept in the full history but not in the clean one? If it had a concurrent
+            // change that was dropped, its own failure was tolerated only because of that sibling
+            // (Identity::op ignores UnexpectedState whenever the change has any concurrent change).
+            let mut anc: Vec<BTreeSet<usize>> = vec![BTreeSet::new(); n];
+            for i in 1..n {
+                let mut a = BTreeSet::new();
+                for p in &parents[i] {
+                    a.insert(*p);
+                    a.extend(anc[*p].iter().copied());
+                }
+                anc[i] = a;
+            }
+            let lost: Vec<usize> = kept.iter().copied().filter(|i| !e2.contains(&ids[*i])).collect();
+            let minimal: Vec<usize> = lost.iter().copied().filter(|i| parents[*i].iter().all(|p| e2.contains(&ids[*p]))).collect();
+            let beside_dropped = !minimal.is_empty()
+                && e2.is_subset(&e1)
+                && minimal.iter().all(|m| (1..n).any(|d| !kept.contains(&d) && ids[d] != ids[*m] && !anc[*m].contains(&d) && !anc[d].contains(m)));
+            let sig = if beside_dropped {
+                "identity:change-kept-only-beside-dropped-concurrent-change"
+            } else {
+                "identity:entries-differ-on-clean-history"
+            };
+            return fail(
+                sig,
+                format!(
+                    "evaluating only the kept entries keeps another set: {} then {} entries; changes {:?} are kept only in the full history",
+                    e1.len(),
+                    e2.len(),
+                    minimal
+                ),
+            );
+        }
+        if full != clean {
+            let a = format!("{full:?}");
+            let b2 = format!("{clean:?}");
+            let at = a.bytes().zip(b2.bytes()).position(|(x, y)| x != y).unwrap_or(0);
+            let lo = at.saturating_sub(80);
+            return fail(
+                "identity:rejected-change-left-a-trace",
+                format!(
+                    "state with rejected changes differs from the state of the clean history; first difference near: …{}… vs …{}…",
+                    &a[lo..(at + 80).min(a.len())],
+                    &b2[lo..(at + 80).min(b2.len())]
+                ),
+            );
+        }
+        ctx.count("identity:cases");
+        if direct > 0 && kept.len() > 1 {
+            ctx.nontrivial(c);
+            ctx.sample("identity-histories", c);
+        }
+        return Ok(());
+    }
 
     let mut prev_chain: Vec<(Oid, String, String, Oid)> = vec![];
     let mut adopted = false;
